@@ -46,7 +46,8 @@ SMALL = [
 BREAKS = ["", "&\n", "&\n&", "& ! c\n  &", "&\n! full\n", "&\n\n   &", "  &  \n   "]
 
 
-def small_text(k, choice, strsplit=None):
+def small_text(k, choice, strsplit=None, semi=None):
+    """semi: None | 'pre' (another statement and ';' in front) | 'post' | 'both'"""
     label, name, text, closer = SMALL[k]
     spans = lex_spans(text)
     toks = [t for t, c, a, b in spans]
@@ -66,9 +67,18 @@ def small_text(k, choice, strsplit=None):
             br = choice[i] if choice else ""
             out += (" " + br) if br else " "
     spec = closer == "@spec"
+    other = "integer :: vf_%s" if spec else "vf_%s = 0"
+    if semi in ("pre", "both"):
+        out = (other % "p") + " ; " + out
+    if semi in ("post", "both"):
+        out = out + "; " + (other % "q")
+    if semi == "ref":
+        out = (other % "p") + "\n" + out + "\n" + (other % "q")
+    elif semi == "refpre":
+        out = (other % "p") + "\n" + out
+    elif semi == "refpost":
+        out = out + "\n" + (other % "q")
     body = out + "\n" + ("" if spec else closer)
-    if spec:
-        return "subroutine vf_s(vf_a)\n" + body + "end subroutine vf_s\n", len(alltoks)
     return "subroutine vf_s(vf_a)\n" + body + "end subroutine vf_s\n", len(alltoks)
 
 
@@ -103,6 +113,13 @@ def small_layouts(k):
                     if not lead and t[p] in "&! ":
                         continue
                     out.append((None, (pre + i, p, lead)))
+    # ';' joins: the statement (with its label / construct name) before, after and between other statements,
+    # alone and combined with every single break
+    for semi in ("pre", "post", "both"):
+        out.append((tuple([0] * n), None, semi))
+        for i in range(n):
+            for b in (1, 2, 3):
+                out.append((tuple(b if j == i else 0 for j in range(n)), None, semi))
     return out
 
 
@@ -113,8 +130,9 @@ def all_small():
     if not _SMALL_CACHE:
         items = []
         for k in range(len(SMALL)):
-            for (c, ss) in small_layouts(k):
-                items.append((k, c, ss))
+            for lay in small_layouts(k):
+                c, ss = lay[0], lay[1]
+                items.append((k, c, ss, lay[2] if len(lay) > 2 else None))
         _SMALL_CACHE["items"] = items
     return _SMALL_CACHE["items"]
 
@@ -187,28 +205,32 @@ def check(payload):
         i0, n = payload["slice"]
         refs = {}
         for j in range(i0, len(items), n):
-            k, c, ss = items[j]
+            k0, c, ss, semi = items[j]
+            k = (k0, semi)
             if k not in refs:
-                rt, _ = small_text(k, None)
+                rt, _ = small_text(k0, None, None, {None: None, "pre": "refpre", "post": "refpost", "both": "ref"}[semi])
                 refs[k] = (parse_shape(rt, "f2003")[0], rt)
             choice = [BREAKS[x] for x in c] if c is not None else None
-            text, _ = small_text(k, choice, ss)
+            text, _ = small_text(k0, choice, ss, semi)
+            k_small = k0
             got, err, _ = parse_shape(text, "f2003")
             mons["layouts_compared"] += 1
             mons["small_layouts"] += 1
             n_eval += 1
             if sample is None:
-                sample = {"statement": SMALL[k][2], "layout": text}
+                sample = {"statement": SMALL[k_small][2], "layout": text}
             ok = got is not None and got == refs[k][0]
             if ok:
                 if text != refs[k][1]:
                     digs.append(digest(text))
                 continue
-            key = _small_key(k, c, ss, got is None)
+            key = _small_key(k_small, c, ss, got is None)
+            if semi:
+                key = "semicolon-join:" + key
             if key not in seen:
                 seen.add(key)
                 viols.append(viol(key, "statement %r laid out as %r: %s" % (
-                    SMALL[k][2], text, ("rejected: %s" % err) if got is None else ("tree differs: %s" % first_diff(refs[k][0], got))),
+                    SMALL[k_small][2], text, ("rejected: %s" % err) if got is None else ("tree differs: %s" % first_diff(refs[k][0], got))),
                     payload={"mode": "one", "text": text, "ref_text": refs[k][1], "std": "f2003", "key": key},
                     shrunk={"source": text}))
         return {"violations": viols, "digests": digs, "monitors": mons, "tally": tally, "evaluations": max(1, n_eval), "sample": sample}
